@@ -26,3 +26,39 @@ package memtable
 //@   requires entry != nil && opts != nil
 //@   ensures[C08] maxSeqNum >= old(maxSeqNum)
 //@   ensures[C08] entry.SequenceNumber <= opts.MaxSequenceNumber ==> maxSeqNum >= entry.SequenceNumber
+
+// ---- C01/C18: abstract view of one memtable: has[k] = some entry with key k exists; del[k] = the entry with the
+// highest sequence number (ties: the later insert) is a deletion marker; val[k] = that entry's value bytes;
+// valnil[k] = that value is nil.  (The skiplist contracts of C18 tie Find to this view.)
+//@ ghost field (*MemTable) has set[bstr]
+//@ ghost field (*MemTable) del set[bstr]
+//@ ghost field (*MemTable) val map[bstr]bstr
+
+// Get maps the newest entry to (value, found): a deletion marker reads as (nil, true), a value never reads as nil.
+//@ func (*MemTable).Get
+//@   modifies nothing
+//@   ensures[C01,C18] result1 == m.has[bstr(key)]
+//@   ensures[C01,C18] result1 ==> (result0 == nil) == m.del[bstr(key)]
+//@   ensures[C01,C18] result1 && !m.del[bstr(key)] ==> bstr(result0) == m.val[bstr(key)]
+//@   ensures[C01,C18] !result1 ==> result0 == nil
+//@   trusted view of SkipList.Find: discharged only once the skiplist contracts (C18) are in place
+
+// Newest layer first: the active table, then the immutable tables from the newest (last) to the oldest (first);
+// the first layer that holds the key decides, also when it holds a deletion marker.
+//@ func (*MemTablePool).Get
+//@   requires p.active != nil && lockstate(p.mu) == 0 && lockstate(p.active.mu) == 0 && (forall i int :: 0 <= i && i < len(p.immutables) ==> p.immutables[i] != nil && lockstate(p.immutables[i].mu) == 0)
+//@   modifies nothing
+//@   ensures[C01] result1 ==> p.active.has[bstr(key)] || (exists i int :: 0 <= i && i < len(p.immutables) && p.immutables[i].has[bstr(key)])
+//@   ensures[C01] !result1 ==> !p.active.has[bstr(key)] && (forall i int :: 0 <= i && i < len(p.immutables) ==> !p.immutables[i].has[bstr(key)])
+//@   ensures[C01] p.active.has[bstr(key)] ==> result1 && (result0 == nil) == p.active.del[bstr(key)] && (!p.active.del[bstr(key)] ==> bstr(result0) == p.active.val[bstr(key)])
+//@   ensures[C01] !p.active.has[bstr(key)] ==> (forall i int :: 0 <= i && i < len(p.immutables) && p.immutables[i].has[bstr(key)] && (forall j int :: i < j && j < len(p.immutables) ==> !p.immutables[j].has[bstr(key)]) ==> result1 && (result0 == nil) == p.immutables[i].del[bstr(key)] && (!p.immutables[i].del[bstr(key)] ==> bstr(result0) == p.immutables[i].val[bstr(key)]))
+//@ loop (*MemTablePool).Get#1
+//@   invariant[C01] 0 - 1 <= i && i < len(p.immutables) && !p.active.has[bstr(key)] && p.active != nil
+//@   invariant[C01] forall j int :: i < j && j < len(p.immutables) ==> !p.immutables[j].has[bstr(key)]
+//@   invariant[C01] forall j int :: 0 <= j && j < len(p.immutables) ==> p.immutables[j] != nil && lockstate(p.immutables[j].mu) == 0
+
+// Entries capture key and value at call time; a value entry never carries a nil value (nil is the deletion marker).
+//@ func newEntry
+//@   ensures[C01,C18] result != nil && fresh(result) && result.valueType == valueType && result.seqNum == seqNum
+//@   ensures[C01,C18,C03] bstr(result.key) == bstr(key) && bstr(result.value) == bstr(value) && (len(key) > 0 ==> fresh(result.key)) && (len(value) > 0 ==> fresh(result.value))
+//@   ensures[C01,C18] valueType == TypeValue ==> result.value != nil
